@@ -61,7 +61,7 @@ fn ref_cmp(a: &[(i64, u8); ND], da: usize, b: &[(i64, u8); ND], db: usize) -> Or
     res
 }
 
-//@ harness props=C14 bounds=thorough:big covers=3,4 name=Identifier::cmp is the reference lexicographic order with the prefix rule; total, antisymmetric, consistent with ==, transitive on three identifiers
+//@ harness props=C14 bounds=thorough:big xcheck=1 covers=3,4 name=Identifier::cmp is the reference lexicographic order with the prefix rule; total, antisymmetric, consistent with ==, transitive on three identifiers
 #[no_mangle]
 pub fn h_c14_order(inp: &Inp) -> u8 {
     let mut i = In::new(inp);
@@ -104,7 +104,7 @@ pub fn h_c14_order(inp: &Inp) -> u8 {
     }
 }
 
-//@ harness props=C14,C13 bounds=thorough:big covers=3,4,5 name=Identifier::between(low, high, marker) is strictly between two distinct identifiers for every marker (either argument order); with one bound it is strictly beyond it; value() is the marker
+//@ harness props=C14,C13 bounds=thorough:big xcheck=1 covers=3,4,5 name=Identifier::between(low, high, marker) is strictly between two distinct identifiers for every marker (either argument order); with one bound it is strictly beyond it; value() is the marker
 #[no_mangle]
 pub fn h_c14_between(inp: &Inp) -> u8 {
     let mut i = In::new(inp);
